@@ -674,6 +674,23 @@ def gen_utf8m(rng, n):
         for j, ch in enumerate(all_chunkings(rng, data, 3)):
             yield "L2 um%d.%d nomodel=1 isz=104 strict=0 %s ops=%s" % (i, j, " ".join(toks), ",".join(["W" + c.hex() for c in ch] + ["E"]))
 
+def gen_sk(rng, n):
+    """streaming sink scripts: a UTF-8 string cut into fragments anywhere (also inside characters), with an error or a truncation
+    somewhere in some, strings written between fragments (a dangling fragment becomes U+FFFD), empty fragments"""
+    for i in range(n):
+        s_ = "".join(rng.choice(UTEXT + ["a", "<b>", "&", "x y", "\U0001f600", "\u00e9", "\u20ac", "1>2"]) for _ in range(rng.randrange(1, 6))).encode()
+        mode = rng.randrange(10)
+        if mode < 6: data = s_
+        elif mode < 8: k = rng.randrange(len(s_) + 1); data = s_[:k] + rng.choice(MALF) + s_[k:]
+        else: data = s_[:rng.randrange(len(s_) + 1)]
+        cuts = sorted(rng.randrange(len(data) + 1) for _ in range(rng.randrange(0, 7)))
+        frags = [data[a:b] for a, b in zip([0] + cuts, cuts + [len(data)])]
+        ops = []
+        for f in frags:
+            ops.append("u" + f.hex())
+            if rng.randrange(8) == 0: ops.append("s" + rng.choice(["", "ok", "<i>", "\u00e9", "a&b"]).encode().hex())
+        yield "SK k%d ct=%s ops=%s" % (i, rng.choice("ht"), ",".join(ops))
+
 def gen_nohandlers(rng, n):
     """no handlers at all: the tag scanner alone; written byte by byte so that pending is observed at every prefix"""
     for i in range(n):
@@ -706,6 +723,8 @@ def main():
         for l in gen_c05(rng, n): print(l)
     elif fam == "td":
         for l in gen_td(rng, n): print(l)
+    elif fam == "sk":
+        for l in gen_sk(rng, n): print(l)
     elif fam == "capis":
         # streaming content handlers (outside the Coq model): C API run vs Rust API run only
         UT = ["\u00e9", "\u4e2d\u6587", "\U0001f600", "a&b<c>", "plain", "x\u00e9y"]
